@@ -19,8 +19,8 @@ from sismic.interpreter import Interpreter
 from sismic.model import Statechart, CompoundState, BasicState, FinalState, Transition, Event
 
 BOUNDS = {
-    'quick': {'D1': 2, 'D2': 1, 'D3': 2, 'D4': 3, 'D5': 2, 'D6': 2, 'D7': 2, 'D8': 3, 'D9': 2, 'D10': 2, 'D11': 2, 'D12': 1},
-    'thorough': {'D1': 3, 'D2': 2, 'D3': 3, 'D4': 4, 'D5': 3, 'D6': 3, 'D7': 3, 'D8': 4, 'D9': 3, 'D10': 3, 'D11': 3, 'D12': 2},
+    'quick': {'D1': 2, 'D2': 1, 'D3': 2, 'D4': 3, 'D5': 2, 'D6': 2, 'D7': 2, 'D8': 3, 'D9': 2, 'D10': 2, 'D11': 2, 'D12': 1, 'D13': 1},
+    'thorough': {'D1': 3, 'D2': 2, 'D3': 3, 'D4': 4, 'D5': 3, 'D6': 3, 'D7': 3, 'D8': 4, 'D9': 3, 'D10': 3, 'D11': 3, 'D12': 2, 'D13': 2},
 }
 _CUR = [None]
 
@@ -48,6 +48,7 @@ def make_chart():
     sc.add_transition(Transition('b', 'a', event='e'))
     sc.add_transition(Transition('a', 'f', event='fin'))
     sc.add_transition(Transition('b', 'f', event='fin'))
+    sc.add_transition(Transition('a', None, event='arm', action="send('late', delay=1000)"))
     sc.add_transition(Transition('a', None, event='d', action='x = 1'))
     sc.add_transition(Transition('b', None, event='d', action='x = 1'))
     return sc
@@ -280,9 +281,21 @@ def D12(w):
     return [client], {'drain': [1, 2], 'counts': {1: 3}}
 
 
-DRIVERS = {'D12': D12, 'D9': D9, 'D10': D10, 'D11': D11, 'D1': D1, 'D2': D2, 'D3': D3, 'D4': D4, 'D5': D5, 'D6': D6, 'D7': D7, 'D8': D8}
+def D13(w):
+    # the statechart has sent itself a delayed event that is far from due: external events must keep flowing
+    def client():
+        w.op('start')
+        w.queue('arm', 1)
+        w.queue('e', 2)
+        w.queue('e', 3)
+        w.await_consumed(3)
+        w.op('stop')
+    return [client], {'drain': [1, 2, 3]}
+
+
+DRIVERS = {'D13': D13, 'D12': D12, 'D9': D9, 'D10': D10, 'D11': D11, 'D1': D1, 'D2': D2, 'D3': D3, 'D4': D4, 'D5': D5, 'D6': D6, 'D7': D7, 'D8': D8}
 EXECUTE_ALL = {'D5', 'D7'}
-PREINIT = {'D2', 'D3', 'D9', 'D10', 'D11', 'D12'}
+PREINIT = {'D2', 'D3', 'D9', 'D10', 'D11', 'D12', 'D13'}
 
 
 def run_one(dname, prefix):
